@@ -108,12 +108,17 @@ def F_eval(f, m):
         return sum(v for a in m.agents if type(v := getattr(a, name, None)) is int)
     if k == "get":
         return getattr(m, f"x{f[1]}", None)
+    if k == "req":
+        return getattr(m, f"x{f[1]}")  # AttributeError when the attribute is missing
     raise BadOp(f)
 
 
 def G_eval(g, k, d, m):
     if g[0] == "lin":
         v = getattr(m, f"x{g[1]}", None)
+        return k * v + d if type(v) is int else None
+    if g[0] == "lreq":
+        v = getattr(m, f"x{g[1]}")
         return k * v + d if type(v) is int else None
     if g[0] == "cnt":
         return k * len(m.agents) + d
@@ -124,6 +129,8 @@ def A_eval(f, a):
     k = f[0]
     if k == "get":
         return getattr(a, f"v{f[1]}", None)
+    if k == "req":
+        return getattr(a, f"v{f[1]}")
     if k == "id":
         return a.unique_id
     if k == "twice":
@@ -138,15 +145,18 @@ def AG_eval(g, a, k, d):
     if g[0] == "lin":
         v = getattr(a, f"v{g[1]}", None)
         return k * v + d if type(v) is int else None
+    if g[0] == "lreq":
+        v = getattr(a, f"v{g[1]}")
+        return k * v + d if type(v) is int else None
     raise BadOp(g)
 
 
 def check_fn(kind, f):
     ok = {
-        "F": {"count": 1, "steps": 1, "sum": 2, "get": 2},
-        "G": {"lin": 2, "cnt": 1},
-        "A": {"get": 2, "id": 1, "twice": 2, "steps": 1},
-        "AG": {"lin": 2},
+        "F": {"count": 1, "steps": 1, "sum": 2, "get": 2, "req": 2},
+        "G": {"lin": 2, "cnt": 1, "lreq": 2},
+        "A": {"get": 2, "id": 1, "twice": 2, "steps": 1, "req": 2},
+        "AG": {"lin": 2, "lreq": 2},
     }[kind]
     if not f or f[0] not in ok or len(f) != ok[f[0]]:
         raise BadOp(f)
@@ -154,12 +164,12 @@ def check_fn(kind, f):
 
 
 def parse_rep(level, ws):
-    """level 'm' or 'a' -> ('attr', a) | ('fn', f) | ('meth', f) | ('args', k, d, g)"""
+    """level 'm' or 'a' -> ('attr', a) | ('fn', f) | ('part', f) (model level only) | ('meth', f) | ('args', k, d, g)"""
     if not ws:
         raise BadOp(ws)
     if ws[0] == "attr" and len(ws) == 2:
         return ("attr", to_nat(ws[1]))
-    if ws[0] in ("fn", "meth"):
+    if ws[0] in ("fn", "meth") or (ws[0] == "part" and level == "m"):
         return (ws[0], check_fn("F" if level == "m" else "A", ws[1:]))
     if ws[0] == "args" and len(ws) >= 4:
         return ("args", to_int(ws[1]), to_int(ws[2]), check_fn("G" if level == "m" else "AG", ws[3:]))
@@ -174,7 +184,7 @@ def direct_m(rep, m):
     """what evaluating the reporter directly on the model yields"""
     if rep[0] == "attr":
         return getattr(m, f"x{rep[1]}", None)
-    if rep[0] in ("fn", "meth"):
+    if rep[0] in ("fn", "part", "meth"):
         return F_eval(rep[1], m)
     return G_eval(rep[3], rep[1], rep[2], m)
 
@@ -209,7 +219,10 @@ def mk_mrep(rep, model, idx):
                 return F_eval(f, m)
 
             return plain
-        return functools.partial(F_eval, f)
+        return lambda m, f_=f: F_eval(f_, m)
+    if rep[0] == "part":
+        # not a types.LambdaType: the validation of the first collect does not call it
+        return functools.partial(F_eval, rep[1])
     if rep[0] == "meth":
         f = rep[1]
         return types.MethodType(lambda self: F_eval(f, self), model)
@@ -281,6 +294,21 @@ class Spec:
 DEF_WORDS = ("classes", "mrep", "arep", "trep", "table")
 
 
+RAISED = "!raised"
+
+
+def try_direct(thunk):
+    try:
+        return thunk()
+    except AttributeError:
+        return RAISED
+
+
+def silent(c):
+    """a collect about which C12 says nothing: a reporter raises when evaluated directly and the call did raise"""
+    return c["outcome"] != "ok" and c.get("phase") is not None
+
+
 class NotAnAgent:
     """stands for any type that is not an Agent subclass"""
 
@@ -347,18 +375,30 @@ class World:
         return self.classes.index(type(a))
 
     def snapshot(self):
+        """what evaluating every reporter directly yields at this moment (RAISED where that raises)"""
         m = self.model
         sp = self.spec
-        return {
+        snap = {
             "step": m.steps,
-            "m": [copy.deepcopy(direct_m(r, m)) for r in sp.mreps],
-            "agents": [(a.unique_id, self.type_index(a), [direct_a(r, a) for r in sp.areps]) for a in m.agents],
+            "m": [try_direct(lambda r=r: copy.deepcopy(direct_m(r, m))) for r in sp.mreps],
+            "agents": [(a.unique_id, self.type_index(a), [try_direct(lambda r=r, a=a: direct_a(r, a)) for r in sp.areps])
+                       for a in m.agents],
             "types": {
-                T: [(a.unique_id, self.type_index(a), [direct_a(r, a) for r in reps])
+                T: [(a.unique_id, self.type_index(a), [try_direct(lambda r=r, a=a: direct_a(r, a)) for r in reps])
                     for a in m.agents if T < len(self.classes) and isinstance(a, self.classes[T])]
                 for T, reps in sp.treps
             },
         }
+        # the first phase of a collect in which a reporter raises when evaluated directly (C12 is silent about such a collect)
+        if any(v is RAISED for v in snap["m"]):
+            snap["phase"] = "m"
+        elif any(v is RAISED for _i, _t, vs in snap["agents"] for v in vs):
+            snap["phase"] = "a"
+        elif any(v is RAISED for rows in snap["types"].values() for _i, _t, vs in rows for v in vs):
+            snap["phase"] = "t"
+        else:
+            snap["phase"] = None
+        return snap
 
     def op(self, ws):
         """execute one op on the implementation; returns the canonical observation"""
@@ -404,6 +444,9 @@ class World:
                 except AttributeError:
                     snap["outcome"] = "err Attr"
                     raise
+                except RuntimeError:
+                    snap["outcome"] = "err Runtime"
+                    raise
                 except ValueError:
                     snap["outcome"] = "err Value"
                     raise
@@ -428,6 +471,8 @@ class World:
             return "err Key"
         except ValueError:
             return "err Value"
+        except RuntimeError:
+            return "err Runtime"
         except Exception as e:  # DataCollector raises bare Exceptions for tables
             if type(e) is Exception and "Table does not exist" in str(e):
                 return "err Unknown"
@@ -593,6 +638,9 @@ def oracle_collect(sc, obs):
             continue
         _, ws, o, ncol, ntab = ev
         seen = collects[:ncol]
+        if ws[0] != "tab" and any(silent(c) for c in seen):
+            # a reporter raised inside a collect: what that call left behind is outside the property (the model follows the code)
+            continue
         # a collect whose model-reporter validation failed stored nothing; one that failed in the
         # agent-type phase (unknown type) had already stored model and agent values
         stored = [c for c in seen if c["outcome"] in ("ok", "err Value")]
@@ -1072,11 +1120,14 @@ def oracle_batch(sc, obs):
                     else:
                         expected_total.append((*base, None, None))
         ScriptModel.instances.clear()
+        # a reporter raised inside a collect the scripted model swallowed: the rows are outside the property (tied to the
+        # model only); the construction / stepping clauses and the process-count clause are still judged
+        raising = any(silent(c) for h in hand.values() for c in h.world.collects)
         # every combination x iteration exactly once (a run that never collected has no row to show)
         shown = [freeze((i, dict(c))) for i in range(it) for c in combos if expected_rows(hand[freeze(dict(c))], per)]
-        if sorted(got) != sorted(shown):
+        if sorted(got) != sorted(shown) and not raising:
             bad.append(f"design: runs executed {sorted(got)[:4]}… are not the design {design[:4]}… once each")
-        if len(by_run) != produced_runs:
+        if len(by_run) != produced_runs and not raising:
             bad.append(f"runid: {len(by_run)} distinct RunIds for {produced_runs} runs")
         if rec["nproc"] == 1 and "constructed" in rec:
             if sorted(freeze(k) for k in rec["constructed"]) != sorted(freeze(dict(c)) for _ in range(it) for c in combos):
@@ -1101,7 +1152,7 @@ def oracle_batch(sc, obs):
             else:
                 got_rows.append((r.get("iteration"), freeze(kw), r.get("Step"), mv, None, None))
         # alignment: Step label, model values and agent values of a row come from one collection of that run
-        for g in got_rows:
+        for g in ([] if raising else got_rows):
             h = hand[g[1]] if g[1] in hand else None
             if h is None:
                 continue
@@ -1120,7 +1171,7 @@ def oracle_batch(sc, obs):
                 bad.append(f"aligned: row Step={g[2]} model=[{g[3]}] agent={g[4]}:{g[5]} matches no single collection of its run")
                 break
         # the last collected state is reported
-        for key, h in hand.items():
+        for key, h in ({} if raising else hand).items():
             cs = [c for c in h.world.collects if c["outcome"] in ("ok", "err Value")]
             if not cs:
                 continue
@@ -1128,7 +1179,7 @@ def oracle_batch(sc, obs):
             if not any(g[1] == key and g[2] == last["step"] and g[3] == fmt_vals(last["m"]) for g in got_rows):
                 bad.append(f"last: the last collection (step {last['step']}, model [{fmt_vals(last['m'])}]) of a run is not among its rows")
                 break
-        if sorted(got_rows, key=repr) != sorted(expected_total, key=repr):
+        if not raising and sorted(got_rows, key=repr) != sorted(expected_total, key=repr):
             bad.append(f"rows: {len(got_rows)} rows returned differ from the {len(expected_total)} rows of the same models stepped by hand")
         # same multiset for every number_processes
         key = (rec["spec_text"], repr(rec["params"]), it, ms, per)
@@ -1179,7 +1230,12 @@ INTS = ["0", "1", "2", "3", "-1", "5", "7"]
 LISTS = ["L", "L1", "L1,2", "L0,0,3"]
 
 
-def gen_fn(R, kind):
+def gen_fn(R, kind, raising=False):
+    if raising and R.random() < 0.5:
+        # reads the attribute directly: raises AttributeError while it is missing
+        if kind in ("F", "G"):
+            return f"{'req' if kind == 'F' else 'lreq'} {R.randrange(4)}"
+        return f"{'req' if kind == 'A' else 'lreq'} {R.randrange(3)}"
     if kind == "F":
         return R.choice(["count", "steps", f"sum {R.randrange(3)}", f"get {R.randrange(4)}"])
     if kind == "G":
@@ -1189,33 +1245,37 @@ def gen_fn(R, kind):
     return f"lin {R.randrange(3)}"
 
 
-def gen_rep(R, level):
+def gen_rep(R, level, raising=False):
     k = R.random()
     if k < 0.3:
         return f"attr {R.randrange(4 if level == 'm' else 3)}"
     if k < 0.55:
-        return "fn " + gen_fn(R, "F" if level == "m" else "A")
+        # model level: a plain function / lambda (validated by a trial call) or a functools.partial (not validated)
+        form = "part" if level == "m" and R.random() < 0.35 else "fn"
+        return f"{form} " + gen_fn(R, "F" if level == "m" else "A", raising)
     if k < 0.8:
-        return "meth " + gen_fn(R, "F" if level == "m" else "A")
-    return f"args {R.choice([1, 2, -1, 3])} {R.choice([0, 1, 5])} " + gen_fn(R, "G" if level == "m" else "AG")
+        return "meth " + gen_fn(R, "F" if level == "m" else "A", raising)
+    return f"args {R.choice([1, 2, -1, 3])} {R.choice([0, 1, 5])} " + gen_fn(R, "G" if level == "m" else "AG", raising)
 
 
-def gen_header(R, batch=False, tables_p=0.6):
-    """class hierarchy, reporter dictionaries mixing the four forms at the three levels, tables"""
+def gen_header(R, batch=False, tables_p=0.6, raising_p=0.12):
+    """class hierarchy, reporter dictionaries mixing the four forms at the three levels, tables; `raising`: some
+    reporters read their attribute directly and raise while it is missing (outside C12's quantifier, tied to the model)"""
+    raising = R.random() < raising_p
     ncls = R.choice([1, 2, 2, 3, 3, 4])
     parents = []
     for i in range(ncls):
         parents.append("-" if i == 0 or R.random() < 0.45 else str(R.randrange(i)))
     lines = ["classes " + " ".join(parents)]
     for _ in range(R.choice([0, 1, 1, 2, 2, 3, 4])):
-        lines.append("mrep " + gen_rep(R, "m"))
+        lines.append("mrep " + gen_rep(R, "m", raising))
     for _ in range(R.choice([0, 1, 1, 2, 3])):
-        lines.append("arep " + gen_rep(R, "a"))
+        lines.append("arep " + gen_rep(R, "a", raising))
     if not batch:
         keys = list(range(ncls)) + ([ncls + 3] if R.random() < 0.06 else [])
         R.shuffle(keys)
         for T in keys[: R.choice([0, 0, 1, 1, 2, 3])]:
-            reps = [gen_rep(R, "a") for _ in range(R.choice([1, 1, 2]))]
+            reps = [gen_rep(R, "a", raising) for _ in range(R.choice([1, 1, 2]))]
             lines.append(f"trep {T} " + " ; ".join(reps))
     ntab = 0
     if R.random() < tables_p:
@@ -1224,7 +1284,7 @@ def gen_header(R, batch=False, tables_p=0.6):
             cols = R.sample(range(4), R.choice([0, 1, 2, 2, 3]))
             lines.append(f"table {t} " + " ".join(map(str, cols)))
     R.shuffle(lines)  # definition order across kinds is free; within a kind it fixes the names
-    return lines, ncls, ntab
+    return lines, ncls, ntab, raising
 
 
 def gen_row(R, ntab, reject_bias=0.0):
@@ -1239,11 +1299,17 @@ def gen_row(R, ntab, reject_bias=0.0):
 
 
 def gen_collect_scenario(R, reject_bias=0.0, n_ops=None):
-    head, ncls, ntab = gen_header(R, tables_p=0.6 + 0.4 * reject_bias)
+    head, ncls, ntab, raising = gen_header(R, tables_p=0.6 + 0.4 * reject_bias)
     lines = ["scenario collect", *head, "start"]
     n_agents = 0
     removed = set()
     list_attrs = set()
+    if raising:
+        # attributes the raising model reporters need: mostly present at first, so that a later `mdel` makes them raise
+        need = [int(l.split()[-1]) for l in head if l.startswith("mrep") and l.split()[-2] in ("req", "lreq")]
+        for a in sorted(set(need)):
+            if R.random() < 0.65:
+                lines.append(f"mset {a} {R.choice(INTS)}")
     # model attributes that are mutable objects and keep changing: preferably the ones the reporters read
     read = [int(l.split()[-1]) for l in head if l.startswith("mrep") and l.split()[1] in ("attr", "fn", "meth") and l.split()[-2] in ("attr", "get")]
     for a in sorted(set(read))[: R.choice([0, 1, 2, 2])]:
@@ -1252,7 +1318,8 @@ def gen_collect_scenario(R, reject_bias=0.0, n_ops=None):
     for _ in range(n_ops or R.randrange(6, 30)):
         k = R.random()
         if k < 0.16:
-            attrs = " ".join(f"{a}={R.choice(VALS)}" for a in R.sample(range(3), R.choice([0, 1, 2, 3])))
+            n_attrs = 3 if raising and R.random() < 0.7 else R.choice([0, 1, 2, 3])
+            attrs = " ".join(f"{a}={R.choice(VALS)}" for a in R.sample(range(3), n_attrs))
             lines.append(f"create {R.randrange(ncls)} {attrs}".rstrip())
             n_agents += 1
         elif k < 0.22 and n_agents:
@@ -1316,7 +1383,7 @@ def gen_param(R, p):
 
 
 def gen_batch_scenario(R, nprocs=(1,), small=False):
-    head, ncls, ntab = gen_header(R, batch=True, tables_p=0.2)
+    head, ncls, ntab, _raising = gen_header(R, batch=True, tables_p=0.2, raising_p=0.05)
     if not any(l.startswith("mrep") for l in head) and R.random() < 0.8:
         head.append("mrep fn steps")
     nparams = R.choice([0, 1, 1, 2, 2, 3]) if not small else R.choice([0, 1, 2])
